@@ -101,3 +101,31 @@ pub fn sdd_from_tt<'a, B: SddBuilder<'a>>(b: &'a B, t: Tt, n: usize) -> SddPtr<'
     }
     go(b, t, 0, n)
 }
+
+/// a second construction route for the same function: the disjunction of its minterms over its support, each
+/// minterm a conjunction of literals taken in the given variable order (different intermediate diagrams, and on
+/// a builder without compression a different final structure)
+pub fn sdd_from_tt_cubes<'a, B: SddBuilder<'a>>(b: &'a B, t: Tt, order: &[usize]) -> SddPtr<'a> {
+    let sup: Vec<usize> = order.iter().copied().filter(|v| t.depends(*v)).collect();
+    if sup.is_empty() {
+        return if t.is_true() { b.true_ptr() } else { b.false_ptr() };
+    }
+    let mut acc = b.false_ptr();
+    for m in 0..(1usize << sup.len()) {
+        let mut full = 0usize;
+        for (i, v) in sup.iter().enumerate() {
+            if (m >> i) & 1 == 1 {
+                full |= 1 << v;
+            }
+        }
+        if !t.get(full) {
+            continue;
+        }
+        let mut cube = b.true_ptr();
+        for (i, v) in sup.iter().enumerate() {
+            cube = b.and(cube, b.var(VarLabel::new_usize(*v), (m >> i) & 1 == 1));
+        }
+        acc = b.or(acc, cube);
+    }
+    acc
+}
